@@ -115,9 +115,6 @@ structure Shut (s : Sock) : Prop extends Base s where
   dev : s.tcp.devOpen = false
   logShut : LogShut s.log
 
-/-- an application whose reactions to `bytesWritten` and `disconnected` make no call -/
-def QuietApp (app : App) : Prop := ∀ s, app.onBw s = [] ∧ app.onDc s = []
-
 /-- the response-side calls -/
 def respOp : ApiOp → Bool
   | .status _ _ | .hdr _ _ _ | .hdrs _ | .wh | .write _ | .err _ _ | .redir _ _ | .json _ _ | .close => true
@@ -169,6 +166,117 @@ theorem Shut.of_eq {s s' : Sock} (h : Shut s)
   obtain ⟨⟨a1, a2, a3, _⟩, a5, a6, _⟩ := h
   exact ⟨⟨h1 ▸ a1, h2 ▸ a2, h3 ▸ a3, hrs⟩, h4 ▸ a5, h5 ▸ a6, hl⟩
 
+/-! ### calls that make no difference to the response -/
+
+/-- calls that touch neither the response nor the transport -/
+def passiveOp : ApiOp → Bool
+  | .read _ | .readAll | .avail | .snap => true
+  | .note o => quietObs o
+  | _ => false
+
+/-- `s'` differs from `s` only in the read-side buffers and in quiet observations appended -/
+def PStep (s s' : Sock) : Prop :=
+  ∃ q d l, s' = { s with qio := q, dataRead := d, log := s.log ++ l } ∧ ∀ o ∈ l, quietObs o = true
+
+theorem PStep.refl (s : Sock) : PStep s s := ⟨s.qio, s.dataRead, [], by simp, by simp⟩
+
+theorem PStep.trans {a c d : Sock} (h1 : PStep a c) (h2 : PStep c d) : PStep a d := by
+  obtain ⟨q1, d1, l1, e1, p1⟩ := h1
+  obtain ⟨q2, d2, l2, e2, p2⟩ := h2
+  refine ⟨q2, d2, l1 ++ l2, by rw [e2, e1]; simp, ?_⟩
+  intro o ho; rcases List.mem_append.mp ho with ho | ho
+  · exact p1 o ho
+  · exact p2 o ho
+
+theorem readData_idle (s : Sock) (n : Nat) (hrb : s.readBuffer = []) :
+    (readData s n).2 = [] ∧ ∃ d, (readData s n).1 = { s with dataRead := d } := by
+  unfold readData
+  split
+  · exact ⟨rfl, s.dataRead, rfl⟩
+  · refine ⟨by simp [hrb], s.dataRead + ((s.readBuffer.take n).length : Int), ?_⟩
+    simp [hrb]
+
+theorem read_idle (s : Sock) (n : Nat) (hrb : s.readBuffer = []) :
+    ∃ q d, (Sock.read s n).1 = { s with qio := q, dataRead := d } := by
+  unfold Sock.read
+  dsimp only
+  split
+  · exact ⟨s.qio, s.dataRead, rfl⟩
+  · split
+    · exact ⟨s.qio.drop n, s.dataRead, rfl⟩
+    · split
+      · obtain ⟨_, d, hd⟩ := readData_idle { s with qio := s.qio.drop n } (n - (s.qio.take n).length) hrb
+        exact ⟨s.qio.drop n, d, hd⟩
+      · obtain ⟨_, d, hd⟩ := readData_idle { s with qio := s.qio.drop n } chunk hrb
+        generalize readData { s with qio := s.qio.drop n } chunk = p at hd ⊢
+        obtain ⟨s2, got⟩ := p
+        dsimp only at hd
+        subst hd
+        exact ⟨(s.qio.drop n ++ got).drop (n - (s.qio.take n).length), d, rfl⟩
+
+theorem readAll_idle (s : Sock) (hrb : s.readBuffer = []) :
+    ∃ q d, (Sock.readAll s).1 = { s with qio := q, dataRead := d } := by
+  unfold Sock.readAll
+  dsimp only
+  split
+  · exact ⟨s.qio, s.dataRead, rfl⟩
+  · obtain ⟨_, d, hd⟩ := readData_idle { s with qio := [] } s.readBuffer.length hrb
+    exact ⟨[], d, hd⟩
+
+theorem apiPrim_pstep (env : Env) (s : Sock) {op : ApiOp} (hop : passiveOp op = true) (hrb : s.readBuffer = []) :
+    PStep s (apiPrim env s op) := by
+  by_cases ha : s.alive = true
+  · have hn : ¬ (!s.alive) = true := by simp [ha]
+    cases op <;> simp only [passiveOp, Bool.false_eq_true] at hop <;>
+      (unfold apiPrim; rw [if_neg hn]; dsimp only)
+    · rename_i n
+      obtain ⟨q, d, e⟩ := read_idle s n hrb
+      exact ⟨q, d, [Obs.rd (Sock.read s n).2], by rw [e], by simp [quietObs, Obs.isW, Obs.isTc]⟩
+    · obtain ⟨q, d, e⟩ := readAll_idle s hrb
+      exact ⟨q, d, [Obs.rd (Sock.readAll s).2], by rw [e], by simp [quietObs, Obs.isW, Obs.isTc]⟩
+    · exact ⟨s.qio, s.dataRead, [Obs.av (bytesAvailable s)], rfl, by simp [quietObs, Obs.isW, Obs.isTc]⟩
+    · exact ⟨s.qio, s.dataRead, [Obs.snap (takeSnap s)], rfl, by simp [quietObs, Obs.isW, Obs.isTc]⟩
+    · rename_i o
+      exact ⟨s.qio, s.dataRead, [o], rfl, by simpa using hop⟩
+  · have hn : (!s.alive) = true := by simpa using ha
+    unfold apiPrim; rw [if_pos hn]; exact PStep.refl s
+
+theorem PStep.rb {s s' : Sock} (h : PStep s s') : s'.readBuffer = s.readBuffer := by
+  obtain ⟨q, d, l, e, _⟩ := h; rw [e]
+
+theorem PStep.dcF {s s' : Sock} (h : PStep s s') : s'.dcFlag = s.dcFlag := by
+  obtain ⟨q, d, l, e, _⟩ := h; rw [e]
+
+theorem foldl_apiPrim_pstep (env : Env) (ops : List ApiOp) : ∀ (s : Sock), (∀ op ∈ ops, passiveOp op = true) →
+    s.readBuffer = [] → PStep s (ops.foldl (apiPrim env) s) := by
+  induction ops with
+  | nil => intro s _ _; exact PStep.refl s
+  | cons op ops ih =>
+    intro s hops hrb
+    have h1 := apiPrim_pstep env s (hops op (by simp)) hrb
+    exact h1.trans (ih _ (fun x hx => hops x (by simp [hx])) (by rw [h1.rb, hrb]))
+
+theorem foldl_api_pstep (env : Env) (app : App) (ops : List ApiOp) : ∀ (s : Sock),
+    (∀ op ∈ ops, passiveOp op = true) → s.readBuffer = [] → s.dcFlag = false →
+    PStep s (ops.foldl (api env app) s) := by
+  induction ops with
+  | nil => intro s _ _ _; exact PStep.refl s
+  | cons op ops ih =>
+    intro s hops hrb hdc
+    have h1 := apiPrim_pstep env s (hops op (by simp)) hrb
+    have e : api env app s op = apiPrim env s op := by simp [api, h1.dcF, hdc]
+    rw [List.foldl_cons, e]
+    exact h1.trans (ih _ (fun x hx => hops x (by simp [hx])) (by rw [h1.rb, hrb]) (by rw [h1.dcF, hdc]))
+
+/-- an application whose reactions to `bytesWritten` and `disconnected` make no response-side call
+    (they may read, query and record harmless notes); reactions to the request-side signals are
+    unconstrained (no byte ever arrives in a C03 history) -/
+def QuietApp (app : App) : Prop :=
+  ∀ s, (∀ op ∈ app.onBw s, passiveOp op = true) ∧ (∀ op ∈ app.onDc s, passiveOp op = true)
+
+theorem quietApp_of_nil {app : App} (h : ∀ s, app.onBw s = [] ∧ app.onDc s = []) : QuietApp app := by
+  intro s; rw [(h s).1, (h s).2]; simp
+
 /-! ### primitives -/
 
 theorem tcpWrite_nil (s : Sock) : tcpWrite s [] = s := by simp [tcpWrite]
@@ -185,26 +293,54 @@ theorem tcpWrite_open {s : Sock} {b : Bytes} (h : s.tcp.devOpen = true) (hc : s.
 theorem headBytes_ne_nil (s : Sock) : headBytes s ≠ [] := by
   simp [headBytes, lit]
 
-theorem emitDc_quiet {app : App} (hq : QuietApp app) (env : Env) (s : Sock) :
-    emitDc env app s = { s with dcFlag := false, log := s.log ++ [Obs.dc],
-                                delPending := s.delPending || s.closeCalled } := by
-  simp [emitDc, (hq _).2]
+theorem emitDc_quiet {app : App} (hq : QuietApp app) (env : Env) (s : Sock) (hrb : s.readBuffer = []) :
+    ∃ q d l, emitDc env app s =
+        { s with dcFlag := false, qio := q, dataRead := d, log := s.log ++ Obs.dc :: l,
+                 delPending := s.delPending || s.closeCalled } ∧
+      ∀ o ∈ l, quietObs o = true := by
+  obtain ⟨q, d, l, e, hl⟩ := foldl_apiPrim_pstep env
+    (app.onDc { s with dcFlag := false, log := s.log ++ [Obs.dc] })
+    { s with dcFlag := false, log := s.log ++ [Obs.dc] } (hq _).2 hrb
+  refine ⟨q, d, l, ?_, hl⟩
+  unfold emitDc
+  dsimp only
+  rw [e]
+  simp
 
-theorem onBytesWritten_eq {app : App} (hq : QuietApp app) (env : Env) (s : Sock) (n : Int) :
-    ∃ x y l, onBytesWritten env app s n = { s with ws := x, hdrRemaining := y, log := s.log ++ l } ∧
+theorem onBytesWritten_eq {app : App} (hq : QuietApp app) (env : Env) (s : Sock) (n : Int)
+    (hrb : s.readBuffer = []) (hdc : s.dcFlag = false) :
+    ∃ x y q d l, onBytesWritten env app s n =
+        { s with ws := x, hdrRemaining := y, qio := q, dataRead := d, log := s.log ++ l } ∧
       (x = .none ↔ s.ws = .none) ∧ (∀ o ∈ l, quietObs o = true) := by
+  -- the `bytesWritten` emission with its reaction
+  have hemit : ∀ (s' : Sock) (b : Int), s'.readBuffer = [] → s'.dcFlag = false →
+      ∃ q d l, emit env app s' (.bw b) (app.onBw s') =
+        { s' with qio := q, dataRead := d, log := s'.log ++ l } ∧ ∀ o ∈ l, quietObs o = true := by
+    intro s' b hrb' hdc'
+    obtain ⟨q, d, l, e, hl⟩ := foldl_api_pstep env app (app.onBw s')
+      { s' with log := s'.log ++ [Obs.bw b] } (hq _).1 hrb' hdc'
+    refine ⟨q, d, Obs.bw b :: l, ?_, ?_⟩
+    · unfold emit apis; rw [e]; simp
+    · intro o ho
+      rcases List.mem_cons.mp ho with ho | ho
+      · subst ho; rfl
+      · exact hl o ho
   unfold onBytesWritten
   by_cases h1 : s.ws = .headers
   · by_cases h2 : s.hdrRemaining - n > 0
-    · refine ⟨.headers, s.hdrRemaining - n, [], ?_, by simp [h1], by simp⟩
+    · refine ⟨.headers, s.hdrRemaining - n, s.qio, s.dataRead, [], ?_, by simp [h1], by simp⟩
       simp only [h1, h2, if_true, reduceCtorEq, if_false, List.append_nil]
-    · refine ⟨.data, s.hdrRemaining, [Obs.bw (n - s.hdrRemaining)], ?_, by simp [h1], by simp [quietObs, Obs.isW, Obs.isTc]⟩
-      simp only [h1, h2, if_true, if_false, emit, apis, (hq _).1, List.foldl_nil]
+    · obtain ⟨q, d, l, e, hl⟩ := hemit { s with ws := .data } (n - s.hdrRemaining) hrb hdc
+      refine ⟨.data, s.hdrRemaining, q, d, l, ?_, by simp [h1], hl⟩
+      simp only [h1, h2, if_true, if_false]
+      exact e
   · by_cases h2 : s.ws = .data
-    · refine ⟨.data, s.hdrRemaining, [Obs.bw n], ?_, by simp [h2], by simp [quietObs, Obs.isW, Obs.isTc]⟩
-      simp only [h2, reduceCtorEq, if_true, if_false, emit, apis, (hq _).1, List.foldl_nil]
-    · refine ⟨s.ws, s.hdrRemaining, [], ?_, by simp, by simp⟩
-      simp only [h1, h2, if_false, List.append_nil]
+    · obtain ⟨q, d, l, e, hl⟩ := hemit s n hrb hdc
+      refine ⟨.data, s.hdrRemaining, q, d, l, ?_, by simp [h2], hl⟩
+      rw [if_neg h1]; dsimp only; rw [if_pos h2, e]
+      simp [h2]
+    · refine ⟨s.ws, s.hdrRemaining, s.qio, s.dataRead, [], ?_, by simp, by simp⟩
+      rw [if_neg h1]; dsimp only; rw [if_neg h2]; simp
 
 theorem onReadyRead_idle (env : Env) (app : App) (s : Sock) (hrb : s.readBuffer = []) (hin : s.tcp.inbox = [])
     (hrs : s.rs ≠ .data) : onReadyRead env app s = s := by
@@ -278,18 +414,26 @@ theorem open_closeDc {app : App} (hq : QuietApp app) (env : Env) {s : Sock} (h :
     Shut (closeDc env app s) ∧ chunks (closeDc env app s).log = chunks s.log := by
   obtain ⟨⟨a1, a2, a3, a4⟩, a5, a6, a7, a8, a9, a10, a11⟩ := h
   have hl := a11.close
-  have hl2 : LogShut (s.log ++ [Obs.tc] ++ [Obs.dc]) := hl.snoc rfl
   by_cases hu : s.tcp.unacked = 0
-  · have : closeDc env app s =
+  · have e0 : closeDc env app s = emitDc env app
         { s with ioOpen := false, qio := [], rs := .finished, ws := .finished, closeCalled := true,
                  tcp := { s.tcp with devOpen := false, conn := .unconnected },
-                 dcFlag := false, delPending := s.delPending || true,
-                 log := s.log ++ [Obs.tc] ++ [Obs.dc] } := by
-      simp only [closeDc, Sock.close, tcpClose, a7, a8, hu, emitDc_quiet hq]
+                 dcFlag := true, log := s.log ++ [Obs.tc] } := by
+      simp only [closeDc, Sock.close, tcpClose, a7, a8, hu]
       simp
-    rw [this]
-    refine ⟨⟨⟨rfl, a2, a3, by simp⟩, rfl, rfl, hl2⟩, ?_⟩
-    simp [chunks]
+    obtain ⟨q, d, l, e, hq'⟩ := emitDc_quiet hq env
+        { s with ioOpen := false, qio := [], rs := .finished, ws := .finished, closeCalled := true,
+                 tcp := { s.tcp with devOpen := false, conn := .unconnected },
+                 dcFlag := true, log := s.log ++ [Obs.tc] } a2
+    have hq2 : ∀ o ∈ Obs.dc :: l, quietObs o = true := by
+      intro o ho
+      rcases List.mem_cons.mp ho with ho | ho
+      · subst ho; rfl
+      · exact hq' o ho
+    rw [e0, e]
+    refine ⟨⟨⟨rfl, a2, a3, by simp⟩, rfl, rfl, hl.append hq2⟩, ?_⟩
+    show chunks (s.log ++ [Obs.tc] ++ Obs.dc :: l) = chunks s.log
+    rw [chunks_append_quiet hq2]; simp [chunks]
   · have : closeDc env app s =
         { s with ioOpen := false, qio := [], rs := .finished, ws := .finished, closeCalled := true,
                  tcp := { s.tcp with devOpen := false, conn := .closing },
@@ -383,8 +527,9 @@ theorem open_ackN {app : App} (hq : QuietApp app) (env : Env) {s : Sock} (h : Op
   by_cases hn : min n s.tcp.unacked = 0
   · simp only [hn, if_true]; exact ⟨h, by simp⟩
   · simp only [hn, if_false]
-    obtain ⟨x, y, l, he, hx, hl⟩ := onBytesWritten_eq hq env
+    obtain ⟨x, y, q, d, l, he, hx, hl⟩ := onBytesWritten_eq hq env
       { s with tcp := { s.tcp with unacked := s.tcp.unacked - min n s.tcp.unacked } } (min n s.tcp.unacked : Nat)
+      h.rb h.dcF
     rw [he]
     split
     · rename_i hc
@@ -397,24 +542,51 @@ theorem shut_ackN {app : App} (hq : QuietApp app) (env : Env) {s : Sock} (h : Sh
   by_cases hn : min n s.tcp.unacked = 0
   · simp only [hn, if_true]; exact ⟨h, by simp⟩
   · simp only [hn, if_false]
-    obtain ⟨x, y, l, he, hx, hl⟩ := onBytesWritten_eq hq env
+    obtain ⟨x, y, q, d, l, he, hx, hl⟩ := onBytesWritten_eq hq env
       { s with tcp := { s.tcp with unacked := s.tcp.unacked - min n s.tcp.unacked } } (min n s.tcp.unacked : Nat)
+      h.rb h.dcF
     rw [he]
     split
-    · rw [emitDc_quiet hq]
-      have hl' : ∀ o ∈ l ++ [Obs.dc], quietObs o = true := by
+    · obtain ⟨q2, d2, l2, e2, hl2⟩ := emitDc_quiet hq env
+        { s with ws := x, hdrRemaining := y, qio := q, dataRead := d, log := s.log ++ l,
+                 tcp := { s.tcp with unacked := s.tcp.unacked - min n s.tcp.unacked, conn := .unconnected } }
+        h.rb
+      have hl' : ∀ o ∈ l ++ Obs.dc :: l2, quietObs o = true := by
         intro o ho
         rcases List.mem_append.mp ho with ho | ho
         · exact hl o ho
-        · simp at ho; subst ho; rfl
+        · rcases List.mem_cons.mp ho with ho | ho
+          · subst ho; rfl
+          · exact hl2 o ho
+      rw [e2]
       refine ⟨h.of_eq (by simp [h.dcF]) h.rs ?_, ?_⟩
       · simpa [List.append_assoc] using h.logShut.append hl'
       · simpa [List.append_assoc] using chunks_append_quiet (l := s.log) hl'
     · exact ⟨h.of_eq rfl h.rs (h.logShut.append hl), chunks_append_quiet hl⟩
 
-/-- the external events of a C03 history: response-side calls, acknowledgements, event-loop turns -/
+theorem open_pstep {s s' : Sock} (h : Open s) (hp : PStep s s') :
+    Open s' ∧ chunks s'.log = chunks s.log ∧ s'.code = s.code ∧ s'.reason = s.reason ∧
+    s'.respHeaders = s.respHeaders ∧ s'.ws = s.ws := by
+  obtain ⟨q, d, l, e, hl⟩ := hp
+  rw [e]
+  exact ⟨h.of_eq rfl (h.logOpen.append hl), chunks_append_quiet hl, rfl, rfl, rfl, rfl⟩
+
+theorem shut_pstep {s s' : Sock} (h : Shut s) (hp : PStep s s') :
+    Shut s' ∧ chunks s'.log = chunks s.log := by
+  obtain ⟨q, d, l, e, hl⟩ := hp
+  rw [e]
+  exact ⟨h.of_eq rfl h.rs (h.logShut.append hl), chunks_append_quiet hl⟩
+
+theorem api_passive (env : Env) (app : App) {s : Sock} {op : ApiOp} (hop : passiveOp op = true)
+    (hrb : s.readBuffer = []) (hdc : s.dcFlag = false) : PStep s (api env app s op) := by
+  have h1 := apiPrim_pstep env s hop hrb
+  have e : api env app s op = apiPrim env s op := by simp [api, h1.dcF, hdc]
+  rw [e]; exact h1
+
+/-- the external events of a C03 history: response-side calls (and calls that do not touch the
+    response: reads, queries, harmless notes), acknowledgements, event-loop turns -/
 def allowedEv : Event → Bool
-  | .api op => respOp op
+  | .api op => respOp op || passiveOp op
   | .ack _ | .ackAll | .turn => true
   | _ => false
 
@@ -485,8 +657,10 @@ theorem shut_step {app : App} (hq : QuietApp app) (env : Env) {s : Sock} (h : Sh
       · exact ⟨h.of_eq rfl h.rs (h.logShut.snoc rfl), by simp [chunks]⟩
       · exact ⟨h.of_eq rfl h.rs (h.logShut.snoc rfl), by simp [chunks]⟩
     · rw [step_api env app _ ha]
-      obtain ⟨h1, e1⟩ := shut_api env app h he
-      exact ⟨h1, by rw [e1]⟩
+      rcases Bool.or_eq_true_iff.mp he with he | he
+      · obtain ⟨h1, e1⟩ := shut_api env app h he
+        exact ⟨h1, by rw [e1]⟩
+      · exact shut_pstep h (api_passive env app he h.rb h.dcF)
   · have : step env app s e = s := by simp [step, ha]
     rw [this]; exact ⟨h, rfl⟩
 
